@@ -122,6 +122,11 @@ DoRM ==
   LET w == NRWalk(s, FALSE) IN
   IF s.failed \/ w.res # "data" THEN DoNR ELSE DoRA(w.s, hist, "RM")
 
+(* ReadJSON, canonical outcome: the decoder consumes the whole message. *)
+DoRJ ==
+  LET w == NRWalk(s, FALSE) IN
+  IF s.failed \/ w.res # "data" THEN DoNR ELSE DoRA(w.s, hist, "RJ")
+
 Step ==
   /\ pc <= Len(prog)
   /\ LET o == prog[pc] IN
@@ -137,6 +142,7 @@ Step ==
             /\ hist' = hist \o [i \in 1..Len(j.starts) |-> [op |-> "JA", res |-> "eom", start |-> j.starts[i], n |-> j.lens[i]]]
                             \o << [op |-> "NR", res |-> IF j.w.res \in {"eom", "data"} THEN "starve" ELSE j.w.res, start |-> 0, n |-> 0] >>
        [] o.op = "RM" -> DoRM
+       [] o.op = "RJ" -> DoRJ
   /\ pc' = pc + 1
   /\ UNCHANGED << cfg, fr, prog, cut, stream >>
 
@@ -184,7 +190,7 @@ Msgs == MsgsFrom(1, IF Bad = 0 THEN Len(fr) + 1 ELSE Bad, NoMsg, << >>)
 MsgAt(st) == LET c == {m \in Rng(Msgs) : m.start = st} IN
              IF c = {} THEN NoMsg ELSE CHOOSE m \in c : TRUE
 
-Completed(h) == h.op \in {"RM", "RA", "RF", "JA"} /\ h.res = "eom"
+Completed(h) == h.op \in {"RM", "RA", "RF", "JA", "RJ"} /\ h.res = "eom"
 
 (* C03/C04/C05: whatever is reported complete is a message of the stream   *)
 (* that lies before the first violation, arrived completely, and is        *)
@@ -200,7 +206,7 @@ InvCompleteIsWhole ==
 (* C03: messages are delivered in stream order, each at most once.         *)
 InvOrder ==
   AtEnd => \A i, j \in 1..Len(hist) :
-     (i < j /\ hist[i].op \in {"NR", "RM"} /\ hist[j].op \in {"NR", "RM"}
+     (i < j /\ hist[i].op \in {"NR", "RM", "RJ"} /\ hist[j].op \in {"NR", "RM", "RJ"}
       /\ hist[i].start > 0 /\ hist[j].start > 0) => hist[i].start < hist[j].start
 
 (* C04/C05/C08: after a failed call nothing is delivered any more.         *)
@@ -228,7 +234,7 @@ InvOverLimit ==
 
 (* C03: a program of ReadMessage calls on a fault-free conformant stream   *)
 (* yields exactly the messages of the stream.                              *)
-AllRM == \A i \in 1..Len(prog) : prog[i].op \in {"RM", "JA"}
+AllRM == \A i \in 1..Len(prog) : prog[i].op \in {"RM", "JA", "RJ"}
 Conformant == Bad = 0 /\ cut.frame = 0 /\ \A i \in 1..Len(fr) : fr[i].lk = "n" /\ fr[i].arr = "full"
 InvDecode ==
   (pc > Len(prog) /\ AllRM /\ Conformant /\ (Lim = 0 \/ AllWithin) /\ cfg.hmode # "err") =>
